@@ -131,6 +131,9 @@ def run(eng, rep) -> None:
     rep.rule("R05.1", "one signal per layout leaf, one message per CAN binding (unconditional construction in a loop over the whole sequence)")
     rep.rule("R05.2", "signal attributes <- attributes of the same leaf: name, start(+7 iff not little), length, byte order, signedness, float marker, unit, multiplexing")
     rep.rule("R05.4", "each bus is written to its own file: the record path is output directory / (bus name + constant suffix)")
+    rep.rule("R05.5", "what stands for a binding in the DBC (message, frame record) is named by the binding's own name, not by the struct it refers to")
+    from .lints import named_after_referent
+    named_after_referent(eng, rep, "R05.5", ("fcp_dbc",), "a struct bound twice on a bus (`impl can for S as A`, `... as B`) gives two DBC messages of the same name, and a renamed binding appears under its struct's name")
     rep.rule("R05.3", "message attributes <- the same binding: id, name, dlc of its own layout, its signals, its bus; only CAN bindings; one result per bus")
     rep.assume("cantools' DBC printer and reader; Motorola start-bit arithmetic for non byte-aligned big-endian signals; that a packed frame decodes through the DBC needs execution")
     dbc = prog.modules.get("fcp_dbc.dbc_writer")
